@@ -215,3 +215,49 @@ package executor
 //@   requires qs != nil
 //@   ensures [never_with_a_field_filter] result ==> !old(qs.hasFieldCondition)
 //@   ensures [never_with_a_call] result ==> old(len(qs.calls)) == 0
+
+// ---- fill over more windows than fit into one chunk (computeGroup cuts a tag group into slices). Every row of the
+// group must reach compute through exactly one slice. In descending order the first slice holds one window and
+// the later ones ChunkSize windows, so the slices can end above the last windows of the range: the LAST slice takes
+// every remaining row (its lower search bound is the smallest timestamp), the others stop at their first window.
+//@ func (*FillTransform).computeGroup
+//@   call UpperBoundInt64Descending
+//@     requires [last_descending_slice_takes_every_remaining_row] j == fillChunkNum-1 ==> arg1 == -9223372036854775808
+//@     requires [earlier_descending_slices_stop_at_their_own_bound] j != fillChunkNum-1 ==> arg1 == startTime
+//@   call LowerBoundInt64Descending
+//@     requires [descending_slice_starts_below_the_previous_one] arg1 == endTime
+//@   call UpperBoundInt64Ascending
+//@     requires [ascending_slice_from_its_first_window] arg1 == startTime
+//@   call LowerBoundInt64Ascending
+//@     requires [ascending_slice_up_to_the_next_slice] arg1 == endTime
+
+// ---- fill(previous): the previous value of a column is the last non-null value OF THE SAME SERIES. The read
+// positions into the chunk never point before the tag group being filled: the first row of a group reads itself
+// (so a null in it falls through to the carried window, which is dropped when it belongs to another series), the
+// trailing fill of the last group of a chunk reads from the group's own last row, and the backwards search for the
+// last non-null value starts at the group's first row.
+//@ func (*FillTransform).processInterval
+//@   ghost same bool = false
+//@   ghost compared bool = false
+//@   ghost dropped bool = false
+//@   call bytes.Equal
+//@     set same = ret0
+//@     set compared = true
+//@     set dropped = false
+//@   call (*FillTransform).updatePrevChunk
+//@     requires [carried_window_only_for_the_same_series] compared && same
+//@   store prevWindow.value
+//@     set dropped = (len(val) == 0)
+//@   call (*FillTransform).appendCall
+//@     requires [foreign_window_dropped_before_the_first_row] intervalIndex == tagStartIndex && compared && !same ==> dropped
+//@ func (*FillTransform).updatePrevReadAt
+//@   call .GetRangeValueIndexV2
+//@     requires [search_back_inside_the_group] arg0 == trans.groupStart
+//@ func (*FillTransform).updatePrevValues
+//@   ghost lastStart int = -1
+//@   ghost has bool = false
+//@   call .GetRangeValueIndexV2
+//@     requires [only_values_of_the_last_group_are_carried] arg0 == lastTagStart
+//@     set has = ret0 < ret1
+//@   call trans.updatePrevValuesFunc[i]
+//@     requires [carry_only_if_the_last_group_has_a_value] has
